@@ -126,7 +126,7 @@ def generate(rng, tier):
                 cur = ksubst(rules[i]['rhs'], m)
                 continue
         # abstract random sub-terms of cur into variables -> lhs; rhs = lhs with a sub-term rewritten
-        names = ['X', 'Y', 'Z']
+        names = rng.sample(['X', 'Y', 'Z'], 3)     # the first variable met is not always called X: scopes are per axiom
         s = {}
 
         def absd(t, top):
@@ -299,8 +299,17 @@ def execute(sc, ctx):
                                 'rule %d subst %s: %s vs %s' % (ri, e['subst'], B.show_ext(B.py_expand(rule_lhs)), B.show_ext(lhs_i)))
                     return out
     except Exception as e:
-        out.refused = True
         out.event('semantics refused', type(e).__name__, str(e)[:120])
+        if not out.faults:
+            # a generated definition, its rules and the substitutions of an unfaulted trace are all within the property's
+            # quantifier: the front end has no reason to refuse to convert them
+            import traceback
+            tb = traceback.extract_tb(e.__traceback__)
+            fn = next((f.name for f in reversed(tb) if 'proof_generation' in f.filename), '?')
+            out.violate('a generated definition and the substitutions of its trace are converted', 'C20|conversion|raises|%s|%s' % (type(e).__name__, fn),
+                        '%s path: %s: %s' % (sc['path'], type(e).__name__, str(e)[:300]))
+        else:
+            out.refused = True
         return out
 
     # ---- R5, the sequential chain model, stepped together with the real front end.  A refused event
